@@ -36,6 +36,7 @@ def plan(tier):
 
 def required(tier):
     return {
+        "config.consume_input_off": 3000,
         "nontrivial": 3000 if tier == "quick" else 30000,
         "lr.recoveries": 5000,
         "glr.recoveries": 5000,
@@ -178,16 +179,20 @@ def one_grammar(ctx, lmon, rmon, g, alphabet, maxlen):
         for sname in ("default", "skip", "inject"):
             if sname != "default" and rng.random() < 0.5:
                 continue
+            # a fifth of the parsers need not consume the whole input (the end-of-input pseudo
+            # token is then a lookahead in mid-input, also while recovering)
+            prefix_mode = rng.random() < 0.2
+            pkw = {"consume_input": False} if prefix_mode else {}
             try:
                 with pgx.watchdog(20):
                     pg = pgx.grammar(text)
                     strat, sstate = strategies(pg)
                     if kind == "LR":
-                        parser = pgx.lr(pg, build_tree=True, error_recovery=strat[sname])
-                        plain = pgx.lr(pgx.grammar(text), build_tree=True)
+                        parser = pgx.lr(pg, build_tree=True, error_recovery=strat[sname], **pkw)
+                        plain = pgx.lr(pgx.grammar(text), build_tree=True, **pkw)
                     else:
-                        parser = pgx.glr(pg, error_recovery=strat[sname])
-                        plain = pgx.glr(pgx.grammar(text))
+                        parser = pgx.glr(pg, error_recovery=strat[sname], **pkw)
+                        plain = pgx.glr(pgx.grammar(text), **pkw)
             except Exception as e:  # noqa: BLE001
                 ctx.count("construction_failed:" + type(e).__name__)
                 continue
@@ -195,11 +200,13 @@ def one_grammar(ctx, lmon, rmon, g, alphabet, maxlen):
             pkeys = pgx.prod_keys(pg)
             for inp in inputs:
                 sstate["inj"] = 0
-                check(ctx, lmon, rmon, g, pg, pkeys, parser, plain, kind, sname, det, dict(case0, parser=kind, strategy=sname, input=inp), inp)
+                check(ctx, lmon, rmon, g, pg, pkeys, parser, plain, kind, sname, det, dict(case0, parser=kind, strategy=sname, input=inp, prefix_mode=prefix_mode), inp)
 
 
 def check(ctx, lmon, rmon, g, pg, pkeys, parser, plain, kind, sname, det, case, inp):
-    key = (case["grammar"], kind, sname, inp)
+    key = (case["grammar"], kind, sname, inp, case.get("prefix_mode", False))
+    if case.get("prefix_mode"):
+        ctx.count("config.consume_input_off")
     rec_before = lmon.c["recoveries"] + rmon.total
     rmon.count = 0
     rmon.limit = 10 * (len(inp) + 2)
@@ -317,7 +324,7 @@ def check(ctx, lmon, rmon, g, pg, pkeys, parser, plain, kind, sname, det, case, 
                 ctx.violation("leaf-is-not-an-input-token", case, "leaf %s[%s->%s] value %r (previous leaf ended at %d)" % (l.symbol.name, s, en, l.value, pos))
                 return
             pos = en
-        if kind == "LR":
+        if kind == "LR" and not case.get("prefix_mode"):
             ctx.count("coverage_checked")
             cover = [0] * n
             for l in leaves:
@@ -372,12 +379,13 @@ def replay(case, ctx):
         pg = pgx.grammar(case["grammar"])
         strat, sstate = strategies(pg)
         kind, sname = case["parser"], case["strategy"]
+        pkw = {"consume_input": False} if case.get("prefix_mode") else {}
         if kind == "LR":
-            parser = pgx.lr(pg, build_tree=True, error_recovery=strat[sname])
-            plain = pgx.lr(pgx.grammar(case["grammar"]), build_tree=True)
+            parser = pgx.lr(pg, build_tree=True, error_recovery=strat[sname], **pkw)
+            plain = pgx.lr(pgx.grammar(case["grammar"]), build_tree=True, **pkw)
         else:
-            parser = pgx.glr(pg, error_recovery=strat[sname])
-            plain = pgx.glr(pgx.grammar(case["grammar"]))
+            parser = pgx.glr(pg, error_recovery=strat[sname], **pkw)
+            plain = pgx.glr(pgx.grammar(case["grammar"]), **pkw)
         det = kind == "LR" and all(len(a) == 1 for s in parser.table.states for a in s.actions.values())
         check(ctx, lmon, rmon, g, pg, pgx.prod_keys(pg), parser, plain, kind, sname, det, case, case["input"])
     finally:
